@@ -50,6 +50,28 @@ SHARD = 150
 
 _state = {}
 
+# every shape the API accepts for `overwrite`: name -> (Python value factory, Coq term, "history" in normalised)
+OVERWRITE = {
+    "F": (lambda: False, "OwFalse", False),
+    "T": (lambda: True, "OwTrue", True),
+    "empty": (lambda: set(), "(OwSet false false)", False),
+    "fempty": (lambda: frozenset(), "(OwSet false false)", False),
+    "history": (lambda: {"history"}, "(OwSet true false)", True),
+    "tags": (lambda: {"tags"}, "(OwSet false true)", False),
+    "both": (lambda: {"history", "tags"}, "(OwSet true true)", True),
+    "lboth": (lambda: ["history", "tags"], "(OwSet true true)", True),
+}
+
+
+def _ow(inp):
+    """Name of the overwrite shape (old replay files carry booleans)."""
+    o = inp["overwrite"]
+    return {True: "T", False: "F"}.get(o, o) if isinstance(o, bool) else o
+
+
+def _ow_history(inp):
+    return OVERWRITE[_ow(inp)][2]
+
 
 def setup(scratch):
     import breezy
@@ -80,11 +102,15 @@ def _op_case(rng, g, force=None):
     tgt = rng.choice(good + [None]) if rng.random() < 0.12 else rng.choice(good)
     src = rng.choice(good + [None]) if rng.random() < 0.08 else rng.choice(good)
     stop = None
-    if rng.random() < 0.4:
+    r = rng.random()
+    if r < 0.4:
         stop = rng.randrange(n)          # any present revision (maybe with a ghost left-hand history)
+    elif r < 0.47:
+        stop = "null"                    # stop_revision=b"null:"
     case = {"kind": "op", "op": rng.choice(["pull", "push"]), "g": g,
             "tgt": tgt, "tgt_ao": rng.random() < 0.25, "master": None,
-            "src": src, "stop": stop, "overwrite": rng.random() < 0.25}
+            "src": src, "stop": stop,
+            "overwrite": rng.choice(["F", "F", "F", "T", "empty", "fempty", "history", "tags", "tags", "both", "lboth"])}
     if rng.random() < 0.3:
         case["master"] = {"tip": rng.choice(good) if rng.random() < 0.5 or tgt is None else tgt,
                           "ao": rng.random() < 0.2}
@@ -109,9 +135,27 @@ def corpus():
         for t, s in itertools.product(good[:5] + [None], good[:5] + [None]):
             for op in ("pull", "push"):
                 out.append({"kind": "op", "op": op, "g": g, "tgt": t, "tgt_ao": False, "master": None,
-                            "src": s, "stop": None, "overwrite": False})
+                            "src": s, "stop": None, "overwrite": "F"})
     g = FIXED[0]
-    for ow, ao in itertools.product((False, True), repeat=2):
+    # every overwrite shape x pull/push on diverged (4 vs 5), descendant (1 -> 4), contained, with and without
+    # append-only; null: as stop revision; empty source / empty target
+    for shape in OVERWRITE:
+        for op in ("pull", "push"):
+            for t, s_, stop, ao in ((4, 5, None, False), (1, 4, None, False), (4, 1, None, False), (3, 4, None, True),
+                                    (4, 5, "null", False), (4, 5, "null", True), (None, 5, "null", True),
+                                    (4, None, None, False), (None, None, None, True), (None, 4, None, True)):
+                out.append({"kind": "op", "op": op, "g": g, "tgt": t, "tgt_ao": ao, "master": None,
+                            "src": s_, "stop": stop, "overwrite": shape})
+            out.append({"kind": "op", "op": op, "g": g, "tgt": 4, "tgt_ao": False, "master": {"tip": 4, "ao": True},
+                        "src": 5, "stop": "null", "overwrite": shape})
+    for ao in (False, True):
+        for t in (None, 1, 3, 4):
+            for new in (None, 0, 2, 3, 4, 5):
+                out.append({"kind": "setinfo", "g": g, "tgt": t, "tgt_ao": ao, "new": new})
+            for new in (None, 0, 2, 3, 4, 5, 6):
+                out.append({"kind": "genhist", "g": g, "tgt": t, "tgt_ao": ao, "new": new})
+    for ow, ao in itertools.product(("F", "T"), repeat=2):
+        ao = ao == "T"
         for stop in range(len(g)):
             out.append({"kind": "op", "op": "pull", "g": g, "tgt": 3, "tgt_ao": ao, "master": None,
                         "src": 4, "stop": stop, "overwrite": ow})
@@ -147,15 +191,22 @@ def cases(rng, tier):
         desc = [x for x in good if x != t and daglib.is_ancestor(g, t, x)]
         if desc:
             s = rng.choice(desc)
-            yield _op_case(rng, g, {"tgt": t, "src": s, "stop": None, "overwrite": False})
+            yield _op_case(rng, g, {"tgt": t, "src": s, "stop": None, "overwrite": "F"})
             yield _op_case(rng, g, {"tgt": t, "src": s, "stop": None, "tgt_ao": True, "master": None})
-            yield _op_case(rng, g, {"tgt": t, "src": rng.choice(good), "stop": s, "tgt_ao": True, "overwrite": True})
+            yield _op_case(rng, g, {"tgt": t, "src": rng.choice(good), "stop": s, "tgt_ao": True, "overwrite": "T"})
+        yield _op_case(rng, g, {"tgt": t, "stop": "null", "tgt_ao": True, "overwrite": rng.choice(["T", "history", "both"])})
+        for _ in range(3):
+            yield {"kind": "setinfo", "g": g, "tgt": rng.choice(good + [None]), "tgt_ao": rng.random() < 0.6,
+                   "new": rng.choice(good + [None])}
+            yield {"kind": "genhist", "g": g, "tgt": rng.choice(good + [None]), "tgt_ao": rng.random() < 0.6,
+                   "new": rng.choice(list(range(n)) + [None])}
         div = [x for x in good if not daglib.is_ancestor(g, t, x) and not daglib.is_ancestor(g, x, t)]
         if div:
             s = rng.choice(div)
-            yield _op_case(rng, g, {"tgt": t, "src": s, "stop": None, "overwrite": False})
-            yield _op_case(rng, g, {"tgt": t, "src": s, "stop": None, "overwrite": True, "tgt_ao": False})
-            yield _op_case(rng, g, {"tgt": t, "src": s, "stop": None, "overwrite": False,
+            yield _op_case(rng, g, {"tgt": t, "src": s, "stop": None, "overwrite": rng.choice(["F", "empty", "tags"])})
+            yield _op_case(rng, g, {"tgt": t, "src": s, "stop": None, "overwrite": rng.choice(["T", "history", "both"]), "tgt_ao": False})
+            yield _op_case(rng, g, {"tgt": t, "src": s, "stop": None, "overwrite": "tags"})
+            yield _op_case(rng, g, {"tgt": t, "src": s, "stop": None, "overwrite": "F",
                                     "master": {"tip": rng.choice(good), "ao": False}})
 
 
@@ -261,6 +312,25 @@ def impl(inp):
         finally:
             src.unlock()
         return [hs, anc, lh, dist]
+    if kind in ("setinfo", "genhist"):
+        tgt = _new_branch(src.repository, g, inp["tgt"], False)
+        tgt.repository.fetch(src.repository)          # the whole graph: the new revision must be present
+        if inp["tgt_ao"]:
+            tgt.set_append_revisions_only(True)
+        new = inp["new"]
+        try:
+            if kind == "setinfo":
+                tgt.set_last_revision_info(daglib.revno_of(g, new), b"null:" if new is None else rid(new))
+            else:
+                tgt.generate_revision_history(b"null:" if new is None else rid(new))
+            out = [Tag("ok"), _info(Branch.open(tgt.base))]
+        except Exception as e:
+            if type(e).__name__ not in EXPECTED:
+                raise
+            out = [Err(type(e).__name__), _info(Branch.open(tgt.base))]
+        from breezy.transport import get_transport
+        get_transport(_state["url"]).delete_tree(tgt.base[len(_state["url"]):].strip("/"))
+        return out
     # kind == "op"
     _set_tip(src, g, inp["src"])
     master = None
@@ -269,13 +339,14 @@ def impl(inp):
     tgt = _new_branch(src.repository, g, inp["tgt"], inp["tgt_ao"])
     if master is not None:
         tgt.set_bound_location(master.base)
-    stop = None if inp["stop"] is None else rid(inp["stop"])
+    stop = None if inp["stop"] is None else b"null:" if inp["stop"] == "null" else rid(inp["stop"])
+    overwrite = OVERWRITE[_ow(inp)][0]()
     status = Tag("ok")
     try:
         if inp["op"] == "pull":
-            tgt.pull(src, overwrite=inp["overwrite"], stop_revision=stop)
+            tgt.pull(src, overwrite=overwrite, stop_revision=stop)
         else:
-            src.push(tgt, overwrite=inp["overwrite"], stop_revision=stop)
+            src.push(tgt, overwrite=overwrite, stop_revision=stop)
     except Exception as e:
         if type(e).__name__ not in EXPECTED:
             raise
@@ -306,31 +377,55 @@ def model_term(inp):
     g = daglib.coq_dag(inp["g"])
     if kind == "graph":
         return f"run_graph {g} {coq_list(inp['keys'], str)} {inp['r']}"
+    if kind in ("setinfo", "genhist"):
+        b, ao, new = _coq_branch(inp["g"], inp["tgt"]), coq_bool(inp["tgt_ao"]), coq_option(inp["new"], str)
+        if kind == "setinfo":
+            return f"run_setinfo {g} {b} {ao} {daglib.revno_of(inp['g'], inp['new'])} {new}"
+        return f"run_genhist {g} {b} {ao} {new}"
     m = inp["master"]
     master = "None" if m is None else f"(Some ({_coq_branch(inp['g'], m['tip'])}, {coq_bool(m['ao'])}))"
     w = f"(mkW {_coq_branch(inp['g'], inp['tgt'])} {coq_bool(inp['tgt_ao'])} {master})"
     op = "Pull" if inp["op"] == "pull" else "Push"
-    return (f"run_case {op} {g} {w} {_coq_branch(inp['g'], inp['src'])} "
-            f"{coq_option(inp['stop'], str)} {coq_bool(inp['overwrite'])}")
+    stop = "NoStop" if inp["stop"] is None else "StopNull" if inp["stop"] == "null" else f"(StopAt {inp['stop']})"
+    return (f"run_case_x {op} {g} {w} {_coq_branch(inp['g'], inp['src'])} {stop} {OVERWRITE[_ow(inp)][1]}")
+
+
+def impl_obs(inp, obs):
+    if inp["kind"] in ("setinfo", "genhist") and not isinstance(obs, Err) and isinstance(obs[0], Err):
+        return [obs[0]]      # the model's error carries no state; "unchanged" is the oracle's business
+    return obs
 
 
 # ---- the property itself, on the implementation's observation -----------------------------
 
-def _expect_one(g, tip, ao, src, stop, ow):
-    """What the property demands of one branch: ('ok', new_tip) or ('err', name)."""
-    s = stop if stop is not None else src
+def _expect_move(g, tip, ao, s):
+    """Setting the tip of a branch at `tip` to s (None = null:): ('ok', s) or ('err', name)."""
     if s is None:
-        return ("ok", tip)
-    if not ow and tip is not None:
-        if daglib.is_ancestor(g, s, tip):
-            return ("ok", tip)                       # already contained: unchanged
-        if not daglib.is_ancestor(g, tip, s):
-            return ("err", "DivergedBranches")       # diverged: must fail
+        if ao and tip is not None:
+            return ("err", "AppendRevisionsOnlyViolation")   # a non-empty append-only branch never becomes empty
+        return ("ok", None)
     if not daglib.lefthand_present(g, s):
         return ("err", "GhostRevisionsHaveNoRevno")
     if ao and tip is not None and tip not in daglib.lefthand(g, s):
         return ("err", "AppendRevisionsOnlyViolation")
-    return ("ok", s)                                  # descendant (or overwrite): moves
+    return ("ok", s)
+
+
+def _expect_one(g, tip, ao, src, stop, ow):
+    """What the property demands of one branch: ('ok', new_tip) or ('err', name).
+    ow = may history be overwritten ("history" in the normalised overwrite argument)."""
+    if stop is None and src is None:
+        return ("ok", tip)                           # nothing to pull
+    s = None if stop == "null" else stop if stop is not None else src
+    if not ow:
+        if s is None:
+            return ("ok", tip)                       # null: is contained in every branch
+        if tip is not None:
+            if daglib.is_ancestor(g, s, tip):
+                return ("ok", tip)                   # already contained: unchanged
+            if not daglib.is_ancestor(g, tip, s):
+                return ("err", "DivergedBranches")   # diverged: must fail
+    return _expect_move(g, tip, ao, s)               # descendant (or overwrite): moves
 
 
 def oracle(inp, obs):
@@ -349,18 +444,31 @@ def oracle(inp, obs):
     if kind == "graph":
         return None
     g = inp["g"]
+    if kind in ("setinfo", "genhist"):
+        status, info = obs
+        want = _expect_move(g, inp["tgt"], inp["tgt_ao"], inp["new"])
+        if kind == "setinfo" and want == ("err", "GhostRevisionsHaveNoRevno"):
+            want = ("ok", inp["new"])
+        got = "ok" if not isinstance(status, Err) else str(status)
+        if got != (want[1] if want[0] == "err" else "ok"):
+            return f"{kind}({inp['new']}) on a branch at {inp['tgt']} (append_only={inp['tgt_ao']}) finished with {got}, the property demands {want}"
+        want_tip = want[1] if want[0] == "ok" else inp["tgt"]
+        if info != [daglib.revno_of(g, want_tip), want_tip]:
+            return f"{kind}({inp['new']}): branch is at {info} after {got}, the property demands tip {want_tip} with revno {daglib.revno_of(g, want_tip)}"
+        return None
     status, tinfo, minfo = obs
+    ow = _ow_history(inp)
     m = inp["master"]
     # what should happen, master first
     want_status, want_t, want_m = "ok", inp["tgt"], (m["tip"] if m else None)
     if m is not None:
-        r = _expect_one(g, m["tip"], m["ao"], inp["src"], inp["stop"], inp["overwrite"])
+        r = _expect_one(g, m["tip"], m["ao"], inp["src"], inp["stop"], ow)
         if r[0] == "err":
             want_status = r[1]
         else:
             want_m = r[1]
     if want_status == "ok":
-        r = _expect_one(g, inp["tgt"], inp["tgt_ao"], inp["src"], inp["stop"], inp["overwrite"])
+        r = _expect_one(g, inp["tgt"], inp["tgt_ao"], inp["src"], inp["stop"], ow)
         if r[0] == "err":
             want_status = r[1]
         else:
@@ -376,7 +484,7 @@ def oracle(inp, obs):
             ((("master", minfo, m["tip"], m["ao"]),) if m else ()):
         if info[0] != daglib.revno_of(g, info[1]):
             return f"{name} records revno {info[0]} for tip {info[1]} whose left-hand history has length {daglib.revno_of(g, info[1])}"
-        if old is not None and not inp["overwrite"] and (info[1] is None or not daglib.is_ancestor(g, old, info[1])):
+        if old is not None and not ow and (info[1] is None or not daglib.is_ancestor(g, old, info[1])):
             return f"{name}: old tip {old} is not in the ancestry of the new tip {info[1]} (history dropped without overwrite)"
         if ao and old is not None and (info[1] is None or old not in daglib.lefthand(g, info[1])):
             return f"{name} is append-only but its new tip {info[1]} lacks the old tip {old} on its left-hand history"
@@ -388,12 +496,14 @@ def finding_matches(fid, inp, obs, why):
 
 
 def nontrivial(inp, obs):
+    if inp["kind"] in ("setinfo", "genhist"):
+        return inp["tgt"] is not None and inp["new"] != inp["tgt"]
     return inp["kind"] == "op" and inp["tgt"] is not None and inp["src"] is not None and \
         (inp["stop"] if inp["stop"] is not None else inp["src"]) != inp["tgt"]
 
 
 def distribution(inputs, observations):
-    d = {"rel": 0, "graph": 0, "op": 0, "pull": 0, "push": 0, "bound": 0, "append_only": 0, "overwrite": 0,
+    d = {"rel": 0, "graph": 0, "op": 0, "setinfo": 0, "genhist": 0, "null_stop": 0, "overwrite_shape": {}, "pull": 0, "push": 0, "bound": 0, "append_only": 0, "overwrite": 0,
          "with_stop": 0, "graphs_with_ghosts": 0, "status": {}, "relation": {}, "graph_size": {}}
     for i, o in zip(inputs, observations):
         d[i["kind"]] += 1
@@ -403,12 +513,14 @@ def distribution(inputs, observations):
         d[i["op"]] += 1
         d["bound"] += i["master"] is not None
         d["append_only"] += bool(i["tgt_ao"])
-        d["overwrite"] += bool(i["overwrite"])
+        d["overwrite"] += _ow_history(i)
+        d["overwrite_shape"][_ow(i)] = d["overwrite_shape"].get(_ow(i), 0) + 1
         d["with_stop"] += i["stop"] is not None
+        d["null_stop"] += i["stop"] == "null"
         d["graphs_with_ghosts"] += any(p >= len(g) for ps in g for p in ps)
         st = "ok" if not isinstance(o, Err) and not isinstance(o[0], Err) else str(o[0] if not isinstance(o, Err) else o)
         d["status"][st] = d["status"].get(st, 0) + 1
-        s = i["stop"] if i["stop"] is not None else i["src"]
+        s = None if i["stop"] == "null" else i["stop"] if i["stop"] is not None else i["src"]
         t = i["tgt"]
         rel = ("null" if s is None or t is None else "same" if s == t else
                "descendant" if daglib.is_ancestor(g, t, s) else "contained" if daglib.is_ancestor(g, s, t) else "diverged")
@@ -421,15 +533,19 @@ def distribution(inputs, observations):
 def shrink(inp, fails):
     if inp["kind"] != "op":
         return inp
+    # the framework may call this after teardown(): then every candidate "fails" with a driver
+    # error and shrinking would produce a misleading input -- detect that with a case that cannot fail
+    if fails({"kind": "graph", "g": [[]], "keys": [0], "r": 0}):
+        return inp
     cur = dict(inp)
-    for key, val in (("master", None), ("tgt_ao", False), ("overwrite", False)):
+    for key, val in (("master", None), ("tgt_ao", False)):
         cand = dict(cur, **{key: val})
         if cand != cur and fails(cand):
             cur = cand
     # drop revisions from the tip of the graph while the failure persists
     while len(cur["g"]) > 1:
         n = len(cur["g"]) - 1
-        used = [cur["tgt"], cur["src"], cur["stop"]] + ([cur["master"]["tip"]] if cur["master"] else [])
+        used = [cur["tgt"], cur["src"], cur["stop"] if cur["stop"] != "null" else None] + ([cur["master"]["tip"]] if cur["master"] else [])
         if n in used:
             break
         cand = dict(cur, g=cur["g"][:-1])
